@@ -1518,6 +1518,11 @@ impl<T: ArrayValue> Array<T> {
                 let row_len = from.element_count();
                 let data = into.data.as_mut_slice();
                 for &i in indices {
+                    // An index that is out of bounds selected a fill value,
+                    // which is not put back
+                    if !index_in_bounds(i, into_row_count) {
+                        continue;
+                    }
                     let i = normalize_index(i, into_row_count);
                     for j in 0..n {
                         data[i * n * row_len + j * row_len..][..row_len]
